@@ -37,6 +37,7 @@ SETUP = [
     "T = A.new_space('T'); T.new_cells('tc', formula='lambda: 10')",
     "Sub = m.new_space('Sub', bases=[A])",
     "X = m.new_space('X', bases=[A.T])",        # derives from a child of A
+    "SubSub = m.new_space('SubSub', bases=[Sub])",     # sub of a sub
     "P = m.new_space('P', formula='lambda i: None'); P.new_cells('c', formula='lambda: i * 2'); P.k = 3",
     "Q = P.new_space('Q'); Q.new_cells('qc', formula='lambda: 5')",
     "R = P.new_space('R', formula='lambda j: None'); R.new_cells('rc', formula='lambda: i * 10 + j')",
@@ -61,7 +62,7 @@ EDITS = [
     py("del m.O.ax"), py("m.A.x.rename('x2')"), py("m.clear_all()"), py("m.P.clear_at(1)"),
     py("m.P.R.rc.formula = 'lambda: i * 10 + j + 1'"), py("del m.P.R"),
 ]
-PROBE_EXPRS = ["m.X.tc()", "m.A.x()", "m.Sub.x()", "m.O.oc()", "m.O.ot()", "m.O.orr()", "m.O.op()", "m.P[1].c()",
+PROBE_EXPRS = ["m.X.tc()", "m.SubSub.x()", "m.A.x()", "m.Sub.x()", "m.O.oc()", "m.O.ot()", "m.O.orr()", "m.O.op()", "m.P[1].c()",
                "m.P[1].Q.qc()", "m.D[1].x()", "m.P[1].R[2].rc()"]
 
 
@@ -202,6 +203,14 @@ def run_history(hist):
                 bs = safe(lambda: [b._is_valid() for b in o.bases])
                 if isinstance(bs, str) or not all(bs):
                     bad("no-residue-bases", {"space": n, "bases_valid": bs}, "only live bases")
+                    break
+        # a derived cells / reference must still have a live base member to derive from
+        for n, o in now.items():
+            if isinstance(o, mx.core.cells.Cells) and "[" not in n and safe(lambda: o._is_derived()) is True:
+                bs = safe(lambda: [b.interface._is_valid() for b in o._impl.bases])
+                if isinstance(bs, str) or not bs or not all(bs):
+                    bad("no-residue-derived", {"cells": n, "bases": bs},
+                        "a derived cells has a live base cells (otherwise it was derived from a deleted object)")
                     break
         tg = m._impl.tracegraph
         for node in list(tg.nodes):
